@@ -846,12 +846,15 @@ class Models(object):
         if isinstance(obj, (list, tuple)) and isinstance(idx, SInt):
             raise Undecided("symbolic index into concrete list")
         if isinstance(obj, dict) and isinstance(idx, SStr):
-            # lookup by symbolic string key among concrete keys
-            for k in list(obj.keys()):
-                if isinstance(k, str):
-                    r = self.str_eq(idx, k)
-                    if r is True or (isinstance(r, SBool) and self.ctx.branch(r.e, "key==%s" % k)):
-                        return obj[k]
+            # lookup by symbolic string key among the (concrete or symbolic) string keys
+            k = self._find_key(obj, idx)
+            if k is not None:
+                return dict.__getitem__(obj, k)
+            import collections
+            if isinstance(obj, collections.defaultdict) and obj.default_factory is not None:
+                v = obj.default_factory()
+                dict.__setitem__(obj, idx, v)
+                return v
             raise KeyError(idx)
         if getattr(obj, "_pyvc_model", False):
             return obj[idx]
@@ -860,10 +863,24 @@ class Models(object):
             return self.interp.call(f, [obj, idx], {})
         raise Undecided("getitem %r[%r]" % (obj, idx))
 
+    def _find_key(self, d, idx):
+        for k in list(d.keys()):
+            if isinstance(k, (str, SStr)):
+                r = self.str_eq(idx, k)
+                if r is True or (isinstance(r, SBool) and self.ctx.branch(r.e, "key==%s" % (k if isinstance(k, str) else "<sym>"))):
+                    return k
+        return None
+
     def setitem(self, obj, idx, value):
         if getattr(obj, "_pyvc_model", False):
             obj[idx] = value
             return
+        if type(obj) in (dict,) or type(obj).__name__ == "defaultdict":
+            if isinstance(idx, SStr):
+                k = self._find_key(obj, idx)
+                self.ctx.writes.append((obj, idx))
+                dict.__setitem__(obj, k if k is not None else idx, value)
+                return
         f = getattr(type(obj), "__setitem__", None)
         if isinstance(f, types.FunctionType) and self.interp.should_interpret(f):
             return self.interp.call(f, [obj, idx, value], {})
